@@ -534,6 +534,8 @@ def run(tier, seed):
     cov["streams"]["koto-objects"] = classes
     from . import c17host
     c17host.run_host(chk, cov, tier, seed)
+    from . import c17api
+    c17api.run_api(chk, cov)
     from .modelrun import replay_witnesses
     w = Worker()
     cov["witnesses_replayed"] = replay_witnesses(chk, w)
